@@ -35,30 +35,51 @@ Theorem C16_limits_at_least_two : 2 <= MaxActiveConnectionIDs /\ 2 <= MaxIssuedC
 Proof. exact limits_at_least_two. Qed.
 Print Assumptions C16_limits_at_least_two.
 
-(** (b) Peer's IDs. In every state the connection can reach ([reachP op_ok]: frames as the
-    parser delivers them, no retransmitted probing-ID frame, nothing after Close or after a
-    frame error) with non-zero-length IDs, a NEW_CONNECTION_ID frame never gives
-    PROTOCOL_VIOLATION or a panic; CONNECTION_ID_LIMIT_ERROR only if afterwards more than
-    MaxActiveConnectionIDs pairwise distinct, received, never-retired sequence numbers are
-    held - hence never when the peer's duplicate-free set of active IDs L has at most
-    MaxActiveConnectionIDs elements; acceptance only if active + queue fit; any other
-    error only for conflicting contents of a queued sequence number. *)
+(** (b) Peer's IDs. The limit the peer may rely on is lim = max(MaxActiveConnectionIDs, L), L the
+    active_connection_id_limit a spec-driven client advertised (SetConnectionIDLimit; 0 for
+    every other connection). In every state the connection can reach ([reachP op_ok]: frames
+    as the parser delivers them - retransmitted, reordered, with Retire Prior To jumps -,
+    path probing, rotation; nothing after Close or after a frame error) with non-zero-length
+    IDs, a NEW_CONNECTION_ID frame never gives PROTOCOL_VIOLATION or a panic;
+    CONNECTION_ID_LIMIT_ERROR only if afterwards more than lim pairwise distinct, received,
+    never-retired sequence numbers are held - hence never while the peer's duplicate-free
+    set of active IDs has at most lim elements; acceptance only if active + queue fit into
+    lim (the first ID beyond is refused); any other error only for conflicting contents of
+    a queued or probing sequence number. *)
 Theorem C16_accept_within_advertised : forall init ops st seq rpt c tok d,
-  reachP op_ok init ops st -> m_acid st <> [] -> 0 <= rpt <= seq -> safe_add st seq ->
+  reachP op_ok init ops st -> m_acid st <> [] -> 0 <= rpt <= seq ->
   let st' := fst (mgr_add seq rpt c tok d st) in
   let r := snd (mgr_add seq rpt c tok d st) in
+  let lim := Z.max MaxActiveConnectionIDs (m_advlimit st) in
   r <> RProto /\ r <> RPanic /\
-  (r = RLimit -> MaxActiveConnectionIDs < zlength (held st')) /\
-  (r = ROk -> 1 + zlength (m_queue st') <= MaxActiveConnectionIDs) /\
+  (r = RLimit -> lim < zlength (held st')) /\
+  (r = ROk -> 1 + zlength (m_queue st') <= lim) /\
   (accepted r -> NoDup (held st') /\
                  forall s, In s (held st') -> retc s (m_log st') = 0 /\
                                               (s = 0 \/ 1 <= frames_for s (MAdd seq rpt c tok d :: ops))) /\
-  (forall L, NoDup L -> incl (held st') L -> zlength L <= MaxActiveConnectionIDs -> r <> RLimit) /\
-  (r = ROther -> exists x, In x (m_queue st) /\ n_seq x = seq /\ cid_eqb (n_cid x) c && (n_tok x =? tok) = false).
+  (forall L, NoDup L -> incl (held st') L -> zlength L <= lim -> r <> RLimit) /\
+  (r = ROther -> exists x, (In x (m_queue st) \/ exists id, In (id, x) (m_probing st)) /\
+                           n_seq x = seq /\ cid_eqb (n_cid x) c && (n_tok x =? tok) = false).
 Proof. exact accept_within_limit. Qed.
 Print Assumptions C16_accept_within_advertised.
 
-(** (c) Retirements, on the connection's histories: active / queued / probing sequence
+(** the advertised limit is exactly what the last SetConnectionIDLimit call said *)
+Theorem C16_advertised_limit_follows : forall o st,
+  m_advlimit (fst (mgr_step o st)) = match sets_limit o with Some n => n | None => m_advlimit st end.
+Proof. exact mgr_step_adv. Qed.
+Print Assumptions C16_advertised_limit_follows.
+
+Example C16_advertised_limit_example :
+  hist_okb w_lim8 (mgr_init w_init) = true /\
+  m_advlimit (mgr_run w_lim8 (mgr_init w_init)) = 8 /\
+  snd (mgr_add 8 0 [8; 7] 1008 0 (mgr_run w_lim8 (mgr_init w_init))) = RLimit /\
+  snd (mgr_add MaxActiveConnectionIDs 0 [4; 7] 1004 0
+         (mgr_run (map w_add [1; 2; 3]) (mgr_init w_init))) = RLimit.
+Proof. exact advertised_limit_example. Qed.
+Print Assumptions C16_advertised_limit_example.
+
+(** (c) Retirements, on the connection's histories (any frames the parser delivers,
+    including retransmissions for probing IDs): active / queued / probing sequence
     numbers are pairwise distinct; no RETIRE_CONNECTION_ID was ever queued for one of them;
     a received number that is no longer held has at least one RETIRE_CONNECTION_ID and at
     most one per frame received for it (exactly one if received once). *)
@@ -88,16 +109,22 @@ Theorem C16_retire_tracked_stays_tracked : forall init ops st o s,
 Proof. exact tracked_stays_tracked. Qed.
 Print Assumptions C16_retire_tracked_stays_tracked.
 
-(** FINDING: without [safe_add] statement (c) is false for the faithful model (and for the
-    implementation: harness witnesses W1, W2, W3, W3b). *)
-Theorem C16_retire_refuted :
-  (exists ops s, forallb parsable ops = true /\ forallb is_ok (mgr_classes ops (mgr_init w_init)) = true /\
-                 In s (held (mgr_run ops (mgr_init w_init))) /\
-                 1 <= retc s (m_log (mgr_run ops (mgr_init w_init)))) /\
-  (exists ops, forallb parsable ops = true /\ forallb is_ok (mgr_classes ops (mgr_init w_init)) = true /\
-               ~ NoDup (held (mgr_run ops (mgr_init w_init)))).
-Proof. exact retire_refuted. Qed.
-Print Assumptions C16_retire_refuted.
+(** Regression of the repaired finding connids/probing-dup (conn_id_manager.go:83 compared a
+    repeated NEW_CONNECTION_ID with highestProbingID before checking whether the number is in
+    use): the four former counterexamples W1, W2, W3, W3b are now ordinary histories and end
+    with the probing / active ID still held exactly once and never reported retired (W1, W2,
+    W3b), respectively with the retired ID staying retired (W3). *)
+Example C16_retire_regression :
+  (hist_okb w1 (mgr_init w_init) = true /\
+   cntz 1 (held (mgr_run w1 (mgr_init w_init))) = 1 /\ retc 1 (m_log (mgr_run w1 (mgr_init w_init))) = 0) /\
+  (hist_okb w2 (mgr_init w_init) = true /\ cntz 1 (held (mgr_run w2 (mgr_init w_init))) = 1) /\
+  (hist_okb w3 (mgr_init w_init) = true /\
+   m_active (mgr_run w3 (mgr_init w_init)) = 2 /\ cntz 1 (held (mgr_run w3 (mgr_init w_init))) = 0 /\
+   retc 1 (m_log (mgr_run w3 (mgr_init w_init))) = 2) /\
+  (hist_okb w3b (mgr_init w_init) = true /\
+   m_active (mgr_run w3b (mgr_init w_init)) = 1 /\ retc 1 (m_log (mgr_run w3b (mgr_init w_init))) = 0).
+Proof. exact retire_regression_w. Qed.
+Print Assumptions C16_retire_regression.
 
 (** (d) Reset tokens. On every history in which the manager is not used after Close and
     learns the transport-parameter token at most once (probing and retransmissions
@@ -162,19 +189,23 @@ Theorem C16_routing_no_foreign : forall ops s k h,
 Proof. exact routing_no_foreign. Qed.
 Print Assumptions C16_routing_no_foreign.
 
-(** closed_conn.go: the stand-in of a locally closed connection retransmits
-    CONNECTION_CLOSE for packet n iff n is a power of two; a remotely closed one never. *)
-Theorem C16_backoff_power_of_two : forall s c j,
+(** closed_conn.go: the stand-in of a locally closed connection retransmits CONNECTION_CLOSE for
+    packet n iff n is a power of two and the copy stays within three times the bytes received
+    for the closed connection (RFC 9000 10.2.1); a remotely closed one never answers. *)
+Theorem C16_backoff_power_of_two : forall s c j size,
   hget c (rt_handlers s) = Some (HLocal j) ->
-  let v := match zget j (rt_counters s) with Some v => v | None => 0 end in
-  0 <= v -> v + 1 < 4294967296 ->
-  let r := snd (rt_step (RDeliver c) s) in
-  rr_kind r = 2 /\ (rr_sent r = 1 <-> exists k : nat, v + 1 = 2 ^ Z.of_nat k) /\ (rr_sent r = 0 \/ rr_sent r = 1).
+  let l := match zget j (rt_locals s) with Some v => v | None => mkL 0 0 0 0 end in
+  0 <= l_cnt l -> l_cnt l + 1 < 4294967296 ->
+  let r := snd (rt_step (RDeliver c size) s) in
+  rr_kind r = 2 /\
+  (rr_sent r = 1 <-> (exists k : nat, l_cnt l + 1 = 2 ^ Z.of_nat k) /\
+                     l_sent l + l_psize l <= 3 * (l_recv l + size)) /\
+  (rr_sent r = 0 \/ rr_sent r = 1).
 Proof. exact backoff_power_of_two. Qed.
 Print Assumptions C16_backoff_power_of_two.
 
-Theorem C16_remote_closed_silent : forall s c,
-  hget c (rt_handlers s) = Some HRemote -> rr_sent (snd (rt_step (RDeliver c) s)) = 0.
+Theorem C16_remote_closed_silent : forall s c size,
+  hget c (rt_handlers s) = Some HRemote -> rr_sent (snd (rt_step (RDeliver c size) s)) = 0.
 Proof. exact remote_closed_silent. Qed.
 Print Assumptions C16_remote_closed_silent.
 
